@@ -295,6 +295,15 @@ let handle_smtp (kind : string) (ins : string list) (outs : string list) : bool 
                      && int_of_z (first_code r) = 552
                  | _ -> false) dlg in
                if within_refused then add "C06:within-limit-refused";
+               (* a completely transmitted block is answered: refused (5xx) when over the limit, accepted (250) when within it
+                  and its header block parses - never left without a reply (the session died on it) *)
+               if wl = None then List.iter (fun (it, r) ->
+                 match it with
+                 | B (PBlock (body, hdr, _)) ->
+                     if r = [] then add "C06:data-block-got-no-reply"
+                     else if List.length body <= int_of_string maxb && hdr <> None && int_of_z (first_code r) <> 250
+                     then add "C06:within-limit-not-accepted"
+                 | _ -> ()) dlg;
                (* C05: a RCPT answered 250 beyond the recipient limit *)
                let n = ref 0 in
                List.iter (fun (it, r) ->
